@@ -24,7 +24,7 @@ pub fn check() -> Check {
         rule: "G1: every line of length <= 10 (quick) / 11 (thorough) over {a, space, quote, backslash, dash, e-acute} tokenised by Tokens::new and compared with a reference grammar written from the property; \
                G2: random lines up to 200 chars over 1-4-byte characters; G3: round trip - random lists of 0-6 arbitrary NUL-free strings rendered fully or minimally quoted, with or without blanks after closing quotes, must tokenise back to exactly the list; \
                G4: the same lists typed through a whole Cli and read back by the handler (after `x --`, or as the whole line: name + classified arguments); renderings may leave the last quote open; \
-               G1b: every line of <= 8/9 symbols over {a, space, quote, U+00A0, U+3000} and over {a, space, quote, TAB, U+001F} (Unicode blanks and control characters are ordinary characters); G5: every line of <= 7/8 symbols over the first alphabet typed through the Cli and compared with the reference dispatch. \
+               G1b: every line of <= 8/9 symbols over {a, space, quote, U+00A0, U+3000} and over {a, space, quote, TAB, U+001F} (Unicode blanks and control characters are ordinary characters); G5: every line of <= 7/8 symbols over the first alphabet typed through the Cli and compared with the reference dispatch; G6: lines with 254..600 (thorough: also 65534..65537) tokens. \
                Non-trivial = the line contains an empty quoted token, an escape, or a quote adjacent to another token; distinct by line content.",
         assumptions: &[
             "inside quotes a backslash followed by anything but quote or backslash, and a dangling final backslash, are left open by the property: on such lines (skipped_unspecified) the token boundaries and all other characters are still compared, the open escape may yield c or backslash-c (nothing or a backslash at the end of the line)",
@@ -346,6 +346,43 @@ fn run_shard(ctx: &ShardCtx) {
     }
     ctx.exhaustive(&format!("lines of <= {} symbols over 6, typed through the Cli", depth5), !ctx.failed());
     ctx.class_n("enumerated through the Cli", g5);
+
+    // G6: many tokens on one line (counts beyond 255; beyond 65535 in the thorough tier), function level and, while the line
+    // fits a 2 KiB command buffer, typed through the Cli
+    {
+        let mut sizes: Vec<usize> = vec![254, 255, 256, 257, 258, 300, 511, 512, 600];
+        if ctx.tier == vmodel::engine::Tier::Thorough {
+            sizes.extend([65_534, 65_535, 65_536, 65_537]);
+        }
+        let pool = ["a", "b", "\"\"", "é", "\"x y\"", "-"];
+        let plain = ["a", "b", "", "é", "x y", "-"];
+        for (si, n) in sizes.iter().enumerate() {
+            if !ctx.mine(si as u64) || ctx.failed() {
+                continue;
+            }
+            let list: Vec<String> = (0..*n).map(|i| plain[(i * 5 + si) % plain.len()].to_string()).collect();
+            let line: String = (0..*n).map(|i| pool[(i * 5 + si) % pool.len()]).collect::<Vec<_>>().join(" ");
+            ctx.count_eval();
+            let (got, _) = real_tokens(&line);
+            let got_s = lossy_list(&got);
+            if got_s != list {
+                let at = got_s.iter().zip(list.iter()).position(|(a, b)| a != b).unwrap_or(got_s.len().min(list.len()));
+                ctx.fail(Failure::new("tokens-enum", json!({"line": line}), format!("tokens of a line with {} tokens: {} tokens (first difference at #{}: {:?})", n, list.len(), at, list.get(at)), format!("{} tokens, there {:?}", got_s.len(), got_s.get(at))));
+                break;
+            }
+            ctx.nontrivial_enum(|| json!({"tokens_on_the_line": n}));
+            if line.len() + 8 < 2048 {
+                ctx.count_eval();
+                let mut whole = vec!["x".to_string(), "--".to_string()];
+                whole.extend(list.iter().cloned());
+                if let Err(f) = check_roundtrip_cli(&list, &line) {
+                    ctx.fail(f);
+                    break;
+                }
+                let _ = whole;
+            }
+        }
+    }
 
     // G2
     let table: Vec<char> = vec!['a', 'b', ' ', ' ', '"', '"', '\\', '-', 'é', 'Ж', '₿', '𝄞', '\t', '\u{1}', '\u{1f}', '\u{a0}', '\u{85}'];
